@@ -133,6 +133,10 @@ func dedup(ps []nv) []nv {
 }
 
 func semver(r *rand.Rand) string {
+	return edgeVer(r, []string{"1", "9", "0", "x", "10", "1a", "10.20.30-alpha.beta.gamma.delta.1+build.20230101.sha.abcdef0123456789abcdef"}, semverUsual(r))
+}
+
+func semverUsual(r *rand.Rand) string {
 	return word(r, digits, 1, 2) + "." + word(r, digits, 1, 2) + "." + word(r, digits, 1, 2) + pick(r, []string{"", "", "", "-beta.1", "-rc.2+build.5"})
 }
 
@@ -543,7 +547,7 @@ func genPkgsLock(r *rand.Rand) gcase {
 	used := map[string]bool{}
 	shared, sharedDiff, project := false, false, false
 	mkVer := func() string {
-		return word(r, digits, 1, 2) + "." + word(r, digits, 1, 2) + "." + word(r, digits, 1, 3) + pick(r, []string{"", "", "-preview.1", ".4"})
+		return edgeVer(r, []string{"1", "9", "0", "10", "1a", "10.20.30.40-preview.1.23456.7+sha.abcdef0123456789"}, word(r, digits, 1, 2)+"."+word(r, digits, 1, 2)+"."+word(r, digits, 1, 3)+pick(r, []string{"", "", "-preview.1", ".4"}))
 	}
 	entry := func(ver string) jobj {
 		e := jobj{{"type", pick(r, []string{"Direct", "Transitive", "CentralTransitive"})}, {"resolved", ver}, {"contentHash", word(r, lower+upper+digits+"+/", 30, 30) + "=="}}
